@@ -1,0 +1,357 @@
+// Verification instrumentation. Compiled only with `--cfg clockbound_verif`; with the flag off
+// this file is not part of the build.
+//
+// It provides:
+// - `atomic`: drop-in replacements for `std::sync::atomic::{AtomicU16, AtomicU32, fence}` whose
+//   every access first calls a thread-local hook (scheduling point, value injection, crash).
+// - `data_write` / `data_read`: the non-atomic record copy, split in chunks of 64-bit words with
+//   a hook call per chunk.
+// - `point`: named scheduling / crash points between file operations.
+// - a clock override for `clock_gettime_safe` (thread-local closure, or process-global values
+//   that C programs can set through `clockbound_verif_set_clock`).
+//
+// With no hook installed every function behaves exactly like the code it replaces.
+
+use std::cell::RefCell;
+use std::sync::Mutex;
+
+/// Number of 64-bit words in a ClockErrorBound record.
+pub const WORDS: usize = 7;
+
+#[derive(Debug, Clone, Copy, PartialEq)]
+pub enum Op {
+    Load,
+    Store,
+    Fence,
+    /// Write of chunk `c` of the record (words `lo..hi`)
+    DataWrite(usize),
+    /// Read of chunk `c` of the record (words `lo..hi`)
+    DataRead(usize),
+    Point(&'static str),
+}
+
+#[derive(Debug, Clone, Copy)]
+pub struct Event {
+    pub op: Op,
+    /// Address accessed (0 for fences and points)
+    pub addr: usize,
+    /// Width of the access in bytes (atomics), or number of words (data chunks)
+    pub width: usize,
+    pub ord: Option<std::sync::atomic::Ordering>,
+    /// Value about to be stored (stores), first word about to be written (data writes)
+    pub val: u64,
+}
+
+pub enum Action {
+    /// Perform the access on the real memory.
+    Proceed,
+    /// Loads only: do not touch memory, return this value instead (simulated stale read).
+    Serve(u64),
+    /// Data reads only: take the words of the chunk from this array instead of memory.
+    ServeRec([u64; WORDS]),
+    /// Unwind the calling thread here (simulated process death).
+    Crash,
+}
+
+/// Panic payload used for simulated crashes.
+pub struct VerifCrash;
+
+type Hook = Box<dyn FnMut(Event) -> Action>;
+type AfterHook = Box<dyn FnMut(Event, u64)>;
+
+thread_local! {
+    static HOOK: RefCell<Option<Hook>> = RefCell::new(None);
+    static AFTER: RefCell<Option<AfterHook>> = RefCell::new(None);
+    static CHUNKS: RefCell<Vec<(usize, usize)>> = RefCell::new((0..WORDS).map(|i| (i, i + 1)).collect());
+    static CLOCK: RefCell<Option<Box<dyn FnMut(libc::clockid_t) -> libc::timespec>>> = RefCell::new(None);
+}
+
+/// Install the hook called *before* every instrumented access of the current thread.
+pub fn install(h: Hook) {
+    HOOK.with(|c| *c.borrow_mut() = Some(h));
+}
+
+/// Install the hook called *after* every instrumented access of the current thread, with the
+/// value loaded / stored.
+pub fn install_after(h: AfterHook) {
+    AFTER.with(|c| *c.borrow_mut() = Some(h));
+}
+
+pub fn uninstall() {
+    HOOK.with(|c| *c.borrow_mut() = None);
+    AFTER.with(|c| *c.borrow_mut() = None);
+}
+
+/// Define how the record copy is split for the current thread: `bounds` are the chunk
+/// boundaries in words, e.g. `[0, 4, 7]` for two chunks. Default is one chunk per word.
+pub fn set_chunks(bounds: &[usize]) {
+    assert!(bounds.len() >= 2 && bounds[0] == 0 && *bounds.last().unwrap() == WORDS);
+    let v: Vec<(usize, usize)> = bounds.windows(2).map(|w| (w[0], w[1])).collect();
+    CHUNKS.with(|c| *c.borrow_mut() = v);
+}
+
+fn call(e: Event) -> Action {
+    let h = HOOK.with(|c| c.borrow_mut().take());
+    match h {
+        None => Action::Proceed,
+        Some(mut f) => {
+            let a = f(e);
+            HOOK.with(|c| {
+                let mut slot = c.borrow_mut();
+                if slot.is_none() {
+                    *slot = Some(f);
+                }
+            });
+            a
+        }
+    }
+}
+
+fn after(e: Event, v: u64) {
+    let h = AFTER.with(|c| c.borrow_mut().take());
+    if let Some(mut f) = h {
+        f(e, v);
+        AFTER.with(|c| {
+            let mut slot = c.borrow_mut();
+            if slot.is_none() {
+                *slot = Some(f);
+            }
+        });
+    }
+}
+
+fn crash() -> ! {
+    std::panic::resume_unwind(Box::new(VerifCrash))
+}
+
+/// A named scheduling / crash point.
+pub fn point(name: &'static str) {
+    let e = Event {
+        op: Op::Point(name),
+        addr: 0,
+        width: 0,
+        ord: None,
+        val: 0,
+    };
+    if let Action::Crash = call(e) {
+        crash()
+    }
+    after(e, 0);
+}
+
+pub mod atomic {
+    use super::*;
+    pub use std::sync::atomic::Ordering;
+
+    macro_rules! shim {
+        ($name:ident, $std:ty, $t:ty) => {
+            #[repr(transparent)]
+            #[derive(Debug)]
+            pub struct $name($std);
+
+            impl $name {
+                pub fn new(v: $t) -> Self {
+                    Self(<$std>::new(v))
+                }
+
+                pub fn load(&self, o: Ordering) -> $t {
+                    let e = Event {
+                        op: Op::Load,
+                        addr: self as *const _ as usize,
+                        width: std::mem::size_of::<$t>(),
+                        ord: Some(o),
+                        val: 0,
+                    };
+                    let v = match call(e) {
+                        Action::Serve(v) => v as $t,
+                        Action::Crash => crash(),
+                        _ => self.0.load(o),
+                    };
+                    after(e, v as u64);
+                    v
+                }
+
+                pub fn store(&self, v: $t, o: Ordering) {
+                    let e = Event {
+                        op: Op::Store,
+                        addr: self as *const _ as usize,
+                        width: std::mem::size_of::<$t>(),
+                        ord: Some(o),
+                        val: v as u64,
+                    };
+                    match call(e) {
+                        Action::Crash => crash(),
+                        _ => self.0.store(v, o),
+                    }
+                    after(e, v as u64);
+                }
+
+                pub fn into_inner(self) -> $t {
+                    self.0.into_inner()
+                }
+            }
+        };
+    }
+
+    shim!(AtomicU16, std::sync::atomic::AtomicU16, u16);
+    shim!(AtomicU32, std::sync::atomic::AtomicU32, u32);
+
+    pub fn fence(o: Ordering) {
+        let e = Event {
+            op: Op::Fence,
+            addr: 0,
+            width: 0,
+            ord: Some(o),
+            val: 0,
+        };
+        if let Action::Crash = call(e) {
+            crash()
+        }
+        std::sync::atomic::fence(o);
+        after(e, 0);
+    }
+}
+
+fn chunks() -> Vec<(usize, usize)> {
+    CHUNKS.with(|c| c.borrow().clone())
+}
+
+/// Chunked equivalent of `dst.write(*src)`.
+///
+/// # Safety
+/// Same contract as `ptr::write`.
+pub unsafe fn data_write(dst: *mut crate::ClockErrorBound, src: &crate::ClockErrorBound) {
+    assert_eq!(std::mem::size_of::<crate::ClockErrorBound>(), WORDS * 8);
+    let d = dst as *mut u64;
+    let s = src as *const crate::ClockErrorBound as *const u64;
+    for (c, (lo, hi)) in chunks().into_iter().enumerate() {
+        let e = Event {
+            op: Op::DataWrite(c),
+            addr: d.add(lo) as usize,
+            width: hi - lo,
+            ord: None,
+            val: s.add(lo).read(),
+        };
+        if let Action::Crash = call(e) {
+            crash()
+        }
+        for i in lo..hi {
+            d.add(i).write_volatile(s.add(i).read());
+        }
+        after(e, s.add(lo).read());
+    }
+}
+
+/// Chunked equivalent of `src.read_volatile()`.
+///
+/// # Safety
+/// Same contract as `ptr::read_volatile`. A `ServeRec` action must carry a valid record image.
+pub unsafe fn data_read(src: *const crate::ClockErrorBound) -> crate::ClockErrorBound {
+    assert_eq!(std::mem::size_of::<crate::ClockErrorBound>(), WORDS * 8);
+    let mut out = std::mem::MaybeUninit::<crate::ClockErrorBound>::uninit();
+    let d = out.as_mut_ptr() as *mut u64;
+    let s = src as *const u64;
+    for (c, (lo, hi)) in chunks().into_iter().enumerate() {
+        let e = Event {
+            op: Op::DataRead(c),
+            addr: s.add(lo) as usize,
+            width: hi - lo,
+            ord: None,
+            val: 0,
+        };
+        match call(e) {
+            Action::Crash => crash(),
+            Action::ServeRec(words) => {
+                for i in lo..hi {
+                    d.add(i).write(words[i]);
+                }
+            }
+            _ => {
+                for i in lo..hi {
+                    d.add(i).write(s.add(i).read_volatile());
+                }
+            }
+        }
+        after(e, d.add(lo).read());
+    }
+    out.assume_init()
+}
+
+// ---------------------------------------------------------------------------------------------
+// Clock override
+
+/// Process-global virtual clock, for callers that cannot install a thread-local closure (C
+/// programs linked against libclockbound, whole-process runs).
+struct GlobalClock {
+    real: libc::timespec,
+    mono: libc::timespec,
+    /// Clock ids read since the clock was set, in order.
+    reads: Vec<libc::clockid_t>,
+}
+
+static GLOBAL_CLOCK: Mutex<Option<GlobalClock>> = Mutex::new(None);
+
+/// Install (or remove) the thread-local clock override of the current thread.
+pub fn set_clock(f: Option<Box<dyn FnMut(libc::clockid_t) -> libc::timespec>>) {
+    CLOCK.with(|c| *c.borrow_mut() = f);
+}
+
+/// Called first thing by `clock_gettime_safe`.
+pub fn clock_override(id: libc::clockid_t) -> Option<libc::timespec> {
+    let local = CLOCK.with(|c| c.borrow_mut().as_mut().map(|f| f(id)));
+    if local.is_some() {
+        return local;
+    }
+    let mut g = GLOBAL_CLOCK.lock().unwrap_or_else(|e| e.into_inner());
+    g.as_mut().map(|gc| {
+        gc.reads.push(id);
+        if id == libc::CLOCK_REALTIME {
+            gc.real
+        } else {
+            gc.mono
+        }
+    })
+}
+
+/// Set the process-global virtual clock: every later `clock_gettime_safe(CLOCK_REALTIME)` returns
+/// `real`, every other clock id returns `mono`, until cleared.
+#[no_mangle]
+pub extern "C" fn clockbound_verif_set_clock(real_sec: i64, real_nsec: i64, mono_sec: i64, mono_nsec: i64) {
+    let mut g = GLOBAL_CLOCK.lock().unwrap_or_else(|e| e.into_inner());
+    *g = Some(GlobalClock {
+        real: libc::timespec {
+            tv_sec: real_sec,
+            tv_nsec: real_nsec,
+        },
+        mono: libc::timespec {
+            tv_sec: mono_sec,
+            tv_nsec: mono_nsec,
+        },
+        reads: Vec::new(),
+    });
+}
+
+#[no_mangle]
+pub extern "C" fn clockbound_verif_clear_clock() {
+    let mut g = GLOBAL_CLOCK.lock().unwrap_or_else(|e| e.into_inner());
+    *g = None;
+}
+
+/// Copy the clock ids read since the last `clockbound_verif_set_clock` into `out` (at most `cap`)
+/// and return how many reads happened.
+///
+/// # Safety
+/// `out` must point to `cap` writable `int`s (or be null with `cap` 0).
+#[no_mangle]
+pub unsafe extern "C" fn clockbound_verif_clock_reads(out: *mut i32, cap: usize) -> usize {
+    let g = GLOBAL_CLOCK.lock().unwrap_or_else(|e| e.into_inner());
+    match g.as_ref() {
+        None => 0,
+        Some(gc) => {
+            for (i, id) in gc.reads.iter().take(cap).enumerate() {
+                out.add(i).write(*id as i32);
+            }
+            gc.reads.len()
+        }
+    }
+}
